@@ -189,6 +189,16 @@ class Ctx:
         self.axioms.append(ax)
 
 
+def sel(term, *idx):
+    """select with eager beta-reduction of lambda arrays (keeps quantifier bodies free of lambdas)."""
+    idx = [zint(i) for i in idx]
+    if z3.is_quantifier(term) and term.is_lambda() and term.num_vars() == len(idx):
+        return z3.substitute_vars(term.body(), *reversed(idx))
+    if z3.is_app(term) and term.decl().kind() == z3.Z3_OP_CONST_ARRAY and len(idx) == 1:
+        return term.arg(0)
+    return z3.Select(term, *idx) if len(idx) > 1 else term[idx[0]]
+
+
 def is_int(v):
     return isinstance(v, (int, bool)) and not isinstance(v, float) or (z3.is_expr(v) and v.sort() == z3.IntSort())
 
@@ -435,7 +445,7 @@ class Exec:
         idx = self.norm_index(st, arr, idx, node, check)
         base, bidx = arr.map_index(idx)
         term = st.heap[base.oid]
-        return z3.Select(term, *[zint(i) for i in bidx]) if len(bidx) > 1 else term[zint(bidx[0])]
+        return sel(term, *bidx)
 
     def norm_index(self, st, arr, idx, node, check):
         out = []
@@ -583,11 +593,11 @@ class Exec:
                 v = self.read(st, src, k, node, check=False) if isinstance(src, Arr) else src
                 return self.coerce_elem(st, base.dtype, v, src if isinstance(src, Arr) else None)
             cond = z3.And(*[z3.And(k >= 0, k < zint(n)) for k, n in zip(ks, base.shape)])
-            body = z3.If(cond, val(tuple(ks)), z3.Select(old, *ks) if len(ks) > 1 else old[ks[0]])
+            body = z3.If(cond, val(tuple(ks)), sel(old, *ks))
             st.heap[base.oid] = z3.Lambda(ks, body)
             if base.oid in st.written:
                 w = st.written[base.oid]
-                st.written[base.oid] = z3.Lambda(ks, z3.Or(cond, z3.Select(w, *ks) if len(ks) > 1 else w[ks[0]]))
+                st.written[base.oid] = z3.Lambda(ks, z3.Or(cond, sel(w, *ks)))
             self.cast_all(st, base.dtype, src, node)
             return
         # view destination: 1-d views only (slices / fixed-index lines)
@@ -610,11 +620,11 @@ class Exec:
         j = ks[axis] - zint(off)
         v = self.read(st, src, (j,), node, check=False) if isinstance(src, Arr) else src
         v = self.coerce_elem(st, base.dtype, v, src if isinstance(src, Arr) else None)
-        body = z3.If(cond, v, z3.Select(old, *ks) if len(ks) > 1 else old[ks[0]])
+        body = z3.If(cond, v, sel(old, *ks))
         st.heap[base.oid] = z3.Lambda(ks, body)
         if base.oid in st.written:
             w = st.written[base.oid]
-            st.written[base.oid] = z3.Lambda(ks, z3.Or(cond, z3.Select(w, *ks) if len(ks) > 1 else w[ks[0]]))
+            st.written[base.oid] = z3.Lambda(ks, z3.Or(cond, sel(w, *ks)))
         self.cast_all(st, base.dtype, src, node)
 
     def coerce_elem(self, st, dtype, v, srcarr):
